@@ -563,6 +563,8 @@ class Verifier(ExprMixin, CallMixin, BuiltinMixin, StmtMixin, Executor):
             c = self.truth(pre, self.spec_eval(cnd, pre, env))
             if c is False:
                 return
+            if c is not True and not self.feasible(pre.assume(c)):
+                return      # the condition cannot hold in the pre-state
             m = m.strip()
         if True:
             if m.startswith('global '):
